@@ -701,9 +701,13 @@ class DynamicsSelector(abc.Mapping):
             transitions = transitions.transitions
         self.__choices: dict[TwoBodyDecay, ResonanceDynamicsBuilder] = {}
         for transition in transitions:
-            for node_id in transition.topology.nodes:
-                decay = TwoBodyDecay.from_transition(transition, node_id)
-                self.__choices[decay] = create_non_dynamic
+            # amplitudes are symmetrized over identical final state particles, so the
+            # decay nodes of the permuted transitions need dynamics as well
+            for graph in _perform_combinatorics(transition):
+                permuted_transition = _freeze(graph)
+                for node_id in permuted_transition.topology.nodes:
+                    decay = TwoBodyDecay.from_transition(permuted_transition, node_id)
+                    self.__choices[decay] = create_non_dynamic
 
     @singledispatchmethod
     def assign(  # noqa: PLR6301
